@@ -135,6 +135,10 @@ func checkC02(ctx *Ctx) {
 	if ctx.Shard == 0 {
 		c02Witnesses(ctx)
 	}
+	if ctx.Shard == 1 {
+		ctx.SetCurrent("C02 strace lane")
+		c02Strace(ctx)
+	}
 	nw := ctx.N(6, 48)
 	policies := []string{"always", "everysec", "no"}
 	for wi := 0; wi < nw; wi++ {
